@@ -5,7 +5,7 @@ from oracle_util import *  # noqa
 from protocol import from_real, KEYS, KEY_IDX
 
 ID = "C14"
-LEAN_MODULE = ["SCoda.Props.C14", "SCoda.Props.Notes"]
+LEAN_MODULE = ["SCoda.Props.C14", "SCoda.Props.Notes", "SCoda.Props.Gaps", "SCoda.Props.ElemTie"]
 LEVEL = "proof"
 CLAUSES = [
     ("every note stays inside the playable range", ["SCoda.C14.in_range", "SCoda.C14.wrap_in_range", "SCoda.C14.settings_range"]),
@@ -15,6 +15,20 @@ CLAUSES = [
     ("when nothing is moved by octaves: exact shift, onsets/durations/velocities untouched, transposing back restores",
      ["SCoda.C14.exact", "SCoda.C14.inverse", "SCoda.C14.timing", "SCoda.C14.wrap_id"]),
     ("key signatures are transposed by the same interval and never become undefined", ["SCoda.C14.key_defined", "SCoda.C20.transpose_tonic"]),
+    ("transposing back (audit A12): over the GENERATED key function (Gen.transposeKey), when nothing is moved by octaves and the original notes are in range, "
+     "transposing by k then by -k restores every message except the spelling of key signatures (same tonic: 66 of 375 key/interval pairs re-spell, e.g. Db +1 -1 = C#), "
+     "hence all notes and the duration exactly; the literal restoration and the version without the range hypothesis are refuted by kernel-checked examples "
+     "replayed on the implementation",
+     ["SCoda.Gaps.inverse", "SCoda.Gaps.inverse_literal_statement_false", "SCoda.Gaps.inverse_without_range_statement_false", "SCoda.Gaps.transpose_seq_exact",
+      "SCoda.Gaps.transposeSeq_total"]),
+    ("key signatures of the result, at list level and through Sequence.transpose from any readable wrapper state and for both flag values (normalise may drop "
+     "repeats): every one is the image under Gen.transposeKey of an original one, a valid key with the tonic shifted by the interval — never undefined",
+     ["SCoda.Gaps.keys_defined", "SCoda.Gaps.keys_defined_seq"]),
+    ("bars (model Bar.transpose, Model/BarOps.lean, tied by the barTranspose correspondence and by the translation of bar.py): the call never fails, numerator and "
+     "denominator are kept, the bar's sequence is transposed as the sequence clauses say (in range, pitch-class image, flag), the bar's key becomes "
+     "Gen.transposeKey key k (valid, tonic shifted, None stays None) and the key signatures inside the bar likewise",
+     ["SCoda.Gaps.bar_transpose_total", "SCoda.Gaps.bar_seq_transposed", "SCoda.Gaps.bar_notes_image", "SCoda.Gaps.bar_key_transposed", "SCoda.Gaps.bar_seq_keys",
+      "SCoda.ElemTie.barTranspose_eq"]),
     ("glue: whatever Sequence.transpose does after the pitch shift (normalise, note-length quantisation), every note-on of the result is a note-on of the "
      "shifted view with the same pitch, channel and velocity, and the returned flag is the shift flag",
      ["SCoda.Notes.transposeSeq_note_ons", "SCoda.Notes.normalise_note_ons", "SCoda.Notes.toAbs_note_ons"]),
@@ -121,6 +135,8 @@ def generate(ctx):
             ctx.count("wrapper-states")
             ctx.check("transpose", {"rel": rel, "by": by, "bar": bar, "state": rng.choice(P.SEQ_STATES[1:])})
         ctx.corr("transposeRel", P.op_transposeRel(by, rel))
+        if bar is not None:
+            ctx.corr("barTranspose", P.op_barTranspose(bar[0], bar[1], bar[2], rel, by))
         ctx.corr("seq", P.op_seq(("rel", rel), [("transpose", by), ("readAbs",), ("readRel",)]))
         ctx.sample({"rel": rel[:6], "by": by, "bar": bar})
     for k in range(15):
